@@ -188,6 +188,13 @@ def posVx (f : Font) (tfs : Rat) (code : Nat) : Rat :=
   | none => tfs / 2
   | some vx => vx / 1000 * tfs
 
+/-- `LTChar.upright` — pdfminer's documented notion "the glyph is not rotated or mirrored", for a
+glyph painted with text rendering matrix `[a b c d e f]` under horizontal scaling `Th`: the
+diagonal keeps its orientation (`a·d·Th > 0`) and the off-diagonal terms do not have the same sign
+(`b·c ≤ 0`, as in a rotation `[cos sin −sin cos]`). -/
+def uprightOf (trm : Matrix) (th : Rat) : Bool :=
+  decide (0 < trm.1 * trm.2.2.2.1 * (th / 100)) && decide (trm.2.1 * trm.2.2.1 ≤ 0)
+
 /-- What `LTChar` reports for a glyph the text model paints with `Tm × CTM = trm`.
 Horizontal writing: advance `w0·Tfs·Th`, box `[0, d+Trise, adv, d+Trise+Tfs]` (d = descent·Tfs).
 Vertical writing: advance `w1·Tfs` (not scaled by Th), box placed by the position vector `(vx, vy)`
@@ -200,12 +207,14 @@ def observe (trm : Matrix) (f : Font) (gs : GS) (code : Nat) : Glyph :=
     let vx := posVx f gs.Tfs code
     let vy := (1000 - (f.disp code).2) / 1000 * gs.Tfs
     let (x0, y0, x1, y1) := apply_matrix_rect trm (-vx, vy + gs.Trise + adv, -vx + gs.Tfs, vy + gs.Trise)
-    { m := trm, adv := adv, bbox := (x0, y0, x1, y1), size := x1 - x0, font := f.name, col := gs.fill }
+    { m := trm, adv := adv, bbox := (x0, y0, x1, y1), size := x1 - x0, upright := uprightOf trm gs.Th,
+      font := f.name, col := gs.fill }
   else
     let adv := w * gs.Tfs * (gs.Th / 100)
     let d := f.descent * f.vscale * gs.Tfs
     let (x0, y0, x1, y1) := apply_matrix_rect trm (0, d + gs.Trise, adv, d + gs.Trise + gs.Tfs)
-    { m := trm, adv := adv, bbox := (x0, y0, x1, y1), size := y1 - y0, font := f.name, col := gs.fill }
+    { m := trm, adv := adv, bbox := (x0, y0, x1, y1), size := y1 - y0, upright := uprightOf trm gs.Th,
+      font := f.name, col := gs.fill }
 
 /-- 9.4.4 for one glyph: horizontal `tx = (w0·Tfs + Tc + Tw)·Th`, vertical `ty = w1·Tfs + Tc + Tw`;
 word spacing only for the single-byte code 32. -/
